@@ -1,3 +1,159 @@
 package main
 
-func cmdSelftest(args []string) int { return 0 }
+import (
+	"encoding/json"
+	"fmt"
+	"os"
+	"os/exec"
+	"path/filepath"
+	"sort"
+	"strings"
+	"time"
+
+	"verif/engine"
+)
+
+// cmdSelftest validates the translator against the real code (DESIGN.md §3.6):
+//
+//  1. conformance twins: concrete vectors (the repository's own lexer/protowire test inputs and a
+//     broad script) run natively and under the engine; the observation logs must be identical;
+//  2. pinned-symbolic twins: the symbolic machinery on inputs pinned by an assumption must agree
+//     with the concrete run inside the same path (all 256 byte values, boundary ints);
+//  3. solver agreement: a set of harnesses is decided with z3 5.1 (z3-new), cvc5 and z3 4.8.12;
+//     path, obligation, discharge and violation counts must be identical.
+func cmdSelftest(args []string) int {
+	t0 := time.Now()
+	fail := 0
+	l, err := engine.Load(verifDir(), "verif/harness/selftest")
+	if err != nil {
+		fmt.Fprintln(os.Stderr, "selftest load:", err)
+		return 1
+	}
+	bin, err := buildNative("verif/harness/selftest", l)
+	if err != nil {
+		fmt.Fprintln(os.Stderr, "selftest native build:", err)
+		return 1
+	}
+	defer os.RemoveAll(filepath.Dir(bin))
+	empty := filepath.Join(filepath.Dir(bin), "empty.json")
+	os.WriteFile(empty, []byte(`{"inputs":{},"params":{}}`), 0o644)
+
+	// 1. conformance twins
+	for _, fn := range []string{"H_lex_vectors", "H_protowire_vectors", "H_script_vector"} {
+		exp, err := l.Run(engine.RunSpec{Fn: fn, Workers: 1, Fuel: 200_000_000, Collect: true}, "z3-new", 60000)
+		if err != nil {
+			fmt.Println("selftest", fn, "engine error:", err)
+			fail++
+			continue
+		}
+		var eng []string
+		for _, o := range exp.Stats.Observed {
+			eng = append(eng, o)
+		}
+		cmd := exec.Command("timeout", "-s", "KILL", "60", bin, fn)
+		cmd.Env = append(os.Environ(), "SYMX_REPLAY="+empty, "SYMX_VERBOSE=1")
+		out, _ := cmd.CombinedOutput()
+		var nat []string
+		for _, line := range strings.Split(string(out), "\n") {
+			if strings.HasPrefix(line, "SYMX-OBSERVE ") {
+				nat = append(nat, strings.TrimPrefix(line, "SYMX-OBSERVE "))
+			}
+		}
+		same := len(eng) == len(nat) && len(nat) > 0
+		first := ""
+		for k := 0; same && k < len(nat); k++ {
+			if normObs(eng[k]) != normObs(nat[k]) {
+				same = false
+				first = fmt.Sprintf("line %d: engine %q vs native %q", k, eng[k], nat[k])
+			}
+		}
+		if !same {
+			fail++
+			fmt.Printf("selftest CONFORMANCE MISMATCH %s: engine %d lines, native %d lines %s\n", fn, len(eng), len(nat), first)
+		} else {
+			fmt.Printf("selftest conformance %s: %d observation lines identical (engine vs native)\n", fn, len(nat))
+		}
+	}
+
+	// 2. pinned-symbolic twins
+	for _, fn := range []string{"H_pinned_decode", "H_pinned_lex", "H_pinned_arith"} {
+		exp, err := l.Run(engine.RunSpec{Fn: fn, Workers: 16, Fuel: 20_000_000}, "z3-new", 60000)
+		if err != nil {
+			fmt.Println("selftest", fn, "engine error:", err)
+			fail++
+			continue
+		}
+		st := exp.Stats
+		ok := len(exp.Violations) == 0 && st.Inconclusive == 0 && st.Unsupported == 0 && st.FuelOut == 0 && st.AssertsTotal > 0 && exp.Truncated == ""
+		fmt.Printf("selftest pinned %s: paths=%d obligations=%d discharged=%d violations=%d inconclusive=%d\n", fn, st.Paths, st.AssertsTotal, st.Discharged, len(exp.Violations), st.Inconclusive+st.Unsupported)
+		if !ok {
+			fail++
+			for _, v := range exp.Violations {
+				b, _ := json.Marshal(v.Inputs)
+				fmt.Printf("  PINNED MISMATCH %s %s\n", v.Label, b)
+				break
+			}
+		}
+	}
+
+	// 3. solver agreement
+	type job struct {
+		pkg, fn, setup string
+		params         map[string]int
+		sched          bool
+	}
+	jobs := []job{
+		{"verif/harness/c14", "H_parse", "", map[string]int{"n": 3}, false},
+		{"verif/harness/c03", "H_int_arith", "", nil, false},
+		{"verif/harness/c03", "H_cmp_float", "", nil, false},
+		{"verif/harness/c03", "H_truth_string", "", map[string]int{"n": 2}, false},
+		{"verif/harness/c13", "H_hist", "", map[string]int{"k": 2}, false},
+		{"verif/harness/c01", "H_lex_spans", "Setup", map[string]int{"n": 1}, false},
+		{"verif/harness/c15", "H_string", "", map[string]int{"n": 2, "m": 1}, false},
+	}
+	loaded := map[string]*engine.Loaded{"verif/harness/selftest": l}
+	for _, j := range jobs {
+		lj := loaded[j.pkg]
+		if lj == nil {
+			lj, err = engine.Load(verifDir(), j.pkg)
+			if err != nil {
+				fmt.Println("selftest load", j.pkg, err)
+				fail++
+				continue
+			}
+			loaded[j.pkg] = lj
+		}
+		var sigs []string
+		for _, solver := range []string{"z3-new", "cvc5", "z3"} {
+			exp, err := lj.Run(engine.RunSpec{Fn: j.fn, Setup: j.setup, Params: j.params, Workers: 16, Fuel: 20_000_000}, solver, 60000)
+			if err != nil {
+				sigs = append(sigs, solver+": error "+err.Error())
+				continue
+			}
+			st := exp.Stats
+			var labels []string
+			for _, v := range exp.Violations {
+				labels = append(labels, v.Label)
+			}
+			sort.Strings(labels)
+			sigs = append(sigs, fmt.Sprintf("paths=%d obligations=%d discharged=%d inconclusive=%d violations=%v", st.Paths, st.AssertsTotal, st.Discharged, st.Inconclusive+st.Unsupported, labels))
+		}
+		agree := sigs[0] == sigs[1] && sigs[1] == sigs[2]
+		fmt.Printf("selftest solvers %s.%s: %s agree=%v\n", j.pkg[len("verif/harness/"):], j.fn, sigs[0], agree)
+		if !agree {
+			fail++
+			fmt.Printf("  SOLVER-DISAGREEMENT z3-new: %s\n  cvc5:   %s\n  z3 4.8: %s\n", sigs[0], sigs[1], sigs[2])
+		}
+	}
+	fmt.Printf("selftest done in %.1fs, failures=%d\n", time.Since(t0).Seconds(), fail)
+	if fail > 0 {
+		return 1
+	}
+	return 0
+}
+
+// normObs removes representation differences between the engine's and fmt's rendering.
+func normObs(s string) string {
+	s = strings.ReplaceAll(s, "  ", " ")
+	return strings.TrimSpace(s)
+}
